@@ -16,7 +16,7 @@ LEAN_TARGETS = ['Nitime.Props.C10']
 RULE = ('cases from one PRNG state: signals real / complex / strongly coloured (AR-filtered noise, pole radius to 0.97), '
         'N in 16..256 (quick) or ..4096 (thorough), orders 1..min(16,N/4); estimators LD and YW with computed and supplied '
         '(biased, unbiased, exact-AR) autocorrelation; AR_psd for sides x parity x real/complex stable coefficient sets; '
-        'ar_generator with supplied noise and dropped transients; distinct = distinct protocol line; '
+        'ar_generator with supplied noise and dropped transients (incl. fewer samples than coefficients); amplitude scales 1e-12..1e6; grids coarser than the order; distinct = distinct protocol line; '
         'ill-conditioned Toeplitz systems (cond > 1e5) are skipped and counted')
 ASSUMPTIONS = ['order >= 1 and at least order+1 autocorrelation lags are available (the code indexes rxx[1])',
                'every number the recursion divides by is non-zero (hypothesis DivisorsOK of the theorems); ill-conditioned cases skipped and counted',
